@@ -23,15 +23,15 @@ fn has_collapse(d: &crate::registry::Dyn) -> bool {
 }
 
 fn ex_len(t: Tier) -> u64 {
-    t.pick(6, 8, 3)
+    t.pick(6, 9, 3)
 }
 
 fn jobs(plan: &Plan) -> Vec<Job> {
     let t = plan.tier;
-    let mut v = entry_jobs(plan, "C11", "sequence", t.pick(200, 800, 1), has_collapse);
+    let mut v = entry_jobs(plan, "C11", "sequence", t.pick(200, 5000, 1), has_collapse);
     v.extend(entry_jobs(plan, "C11", "exhaustive", 1, |d| d.flags.collapse_top));
     use crate::catalogue::{EColumnsCollapsePairsString, ESliceCollapsePairsString, ESliceCollapseString};
-    for h in 0..t.pick(30, 100, 1) {
+    for h in 0..t.pick(30, 1000, 1) {
         v.push(super::standalone("slice<collapse<string>>", "nested-growth", h, nested_growth::<ESliceCollapseString>));
         v.push(super::standalone("slice<collapse<pairs<string>>,optimized>", "nested-growth", h, nested_growth::<ESliceCollapsePairsString>));
         v.push(super::standalone("columns<collapse<pairs<string>>>", "nested-growth", h, nested_growth::<EColumnsCollapsePairsString>));
